@@ -28,6 +28,18 @@ type MemCore struct {
 	enc zapcore.Encoder
 	r   *ring.Ring
 	mu  *sync.RWMutex
+	// root is the core this one was derived from by With (nil for the core of
+	// a MemLogger): all cores derived from one core write to the same ring, so
+	// they share the write position and the mutex of that core
+	root *MemCore
+}
+
+// owner returns the core that owns the ring position and the mutex
+func (mc *MemCore) owner() *MemCore {
+	if mc.root != nil {
+		return mc.root
+	}
+	return mc
 }
 
 /*MemLogger - a struct for ring buffered inmemory logger */
@@ -56,7 +68,7 @@ func (ml *MemLogger) GetCore() zapcore.Core {
 /*GetLogs - get the inmemory logs */
 func (ml *MemLogger) GetLogs() []*observer.LoggedEntry {
 	var index = BufferSize - 1
-	mc := ml.core
+	mc := ml.core.owner()
 	logs := make([]*observer.LoggedEntry, BufferSize)
 	mc.r.Do(func(val interface{}) {
 		if val != nil {
@@ -122,6 +134,8 @@ func (mc *MemCore) Check(ent zapcore.Entry, ce *zapcore.CheckedEntry) *zapcore.C
 
 /*Write - implement interface */
 func (mc *MemCore) Write(ent zapcore.Entry, fields []zapcore.Field) error {
+	// the position to write at belongs to the core the ring was created for
+	mc = mc.owner()
 	mc.mu.Lock()
 	defer mc.mu.Unlock()
 
@@ -153,5 +167,6 @@ func (mc *MemCore) clone() *MemCore {
 		enc:          mc.enc.Clone(),
 		r:            mc.r,
 		mu:           &sync.RWMutex{},
+		root:         mc.owner(),
 	}
 }
